@@ -432,6 +432,155 @@ func UseFeedByValue(a, b int) int {
 	return
 }
 
+// nestedTemplates (C14, C03): one generator hands out a sub-iterator per loop iteration (a
+// generator literal that captures that iteration's variables and reads them lazily); the
+// consumer first collects them - or advances the outer generator in between - and then
+// consumes them in a drawn interleaving. Each sub-iterator must produce what it produces
+// when consumed alone (the reference runs the same consumer on coroutines).
+func nestedTemplates(r *prng.R, tag func() int) (src, ref []string, funcs []*Func) {
+	common := `type SubIt = «Iter[int]»
+
+type subBox struct {
+	it «Iter[int]»
+	id int
+}
+`
+	lit := func(body string) string { // a generator literal, invoked on the spot
+		return "func() «Iter[int]» {\n" + body + "\t\t\treturn nil\n\t\t}()"
+	}
+	genSrc := fmt.Sprintf(`func subsRange2(xs []int) «Iter[SubIt]» {
+	for k, v := range xs {
+		«Yield»(`+lit("\t\t\t«Yield»(k)\n\t\t\t«Yield»(v)\n\t\t\tvrt.E(%[1]d, k, v)\n\t\t\t«Yield»(k*10 + v)\n")+`)
+	}
+	return nil
+}
+
+func subsRange1(xs []int) «Iter[SubIt]» {
+	for _, v := range xs {
+		«Yield»(`+lit("\t\t\t«Yield»(v)\n\t\t\tv += 100\n\t\t\t«Yield»(v)\n\t\t\tv += 100\n\t\t\t«Yield»(v)\n")+`)
+		v = -v // after the hand-out: the literal of THIS iteration sees it
+	}
+	return nil
+}
+
+func subsInt(n int) «Iter[SubIt]» {
+	for i := range n {
+		«Yield»(`+lit("\t\t\tfor j := 0; j <= i; j++ {\n\t\t\t\t«Yield»(i*10 + j)\n\t\t\t}\n")+`)
+	}
+	return nil
+}
+
+func subsString(s string) «Iter[SubIt]» {
+	for i, c := range s {
+		«Yield»(`+lit("\t\t\t«Yield»(i)\n\t\t\t«Yield»(int(c))\n")+`)
+	}
+	return nil
+}
+
+func subsBodyVar(n int) «Iter[subBox]» {
+	total := 0
+	i := 0
+	for i < n {
+		x := i * i
+		total += x
+		«Yield»(subBox{id: i, it: `+lit("\t\t\t«Yield»(x)\n\t\t\tx++\n\t\t\ttotal++\n\t\t\tvrt.E(%[2]d, x, total)\n\t\t\t«Yield»(x + total)\n")+`})
+		x += 1000
+		i++
+	}
+	return nil
+}
+`, tag(), tag())
+	genRef := strings.NewReplacer(
+		"func subsRange2(xs []int) «Iter[SubIt]» {\n", "func subsRange2(xs []int) «Iter[SubIt]» {\n\treturn refco.Go(func(ʏ *refco.Y[SubIt]) {\n",
+		"func subsRange1(xs []int) «Iter[SubIt]» {\n", "func subsRange1(xs []int) «Iter[SubIt]» {\n\treturn refco.Go(func(ʏ *refco.Y[SubIt]) {\n",
+		"func subsInt(n int) «Iter[SubIt]» {\n", "func subsInt(n int) «Iter[SubIt]» {\n\treturn refco.Go(func(ʏ *refco.Y[SubIt]) {\n",
+		"func subsString(s string) «Iter[SubIt]» {\n", "func subsString(s string) «Iter[SubIt]» {\n\treturn refco.Go(func(ʏ *refco.Y[SubIt]) {\n",
+		"func subsBodyVar(n int) «Iter[subBox]» {\n", "func subsBodyVar(n int) «Iter[subBox]» {\n\treturn refco.Go(func(ʏ *refco.Y[subBox]) {\n",
+		"func() «Iter[int]» {\n", "func() «Iter[int]» {\n\t\t\treturn refco.Go(func(ʏ *refco.Y[int]) {\n",
+		"\t\t\treturn nil\n\t\t}()", "\t\t\treturn\n\t\t\t})\n\t\t}()",
+		"\treturn nil\n}\n", "\treturn\n\t})\n}\n",
+	).Replace(genSrc)
+	users := fmt.Sprintf(`func collectSubs(which, n int) []«Iter[int]» {
+	var its []«Iter[int]»
+	xs := []int{n, n + 1, n * 2, 7}
+	switch ((which %% 5) + 5) %% 5 {
+	case 0:
+		for it := range «RANGE(subsRange2(xs))» {
+			its = append(its, it)
+		}
+	case 1:
+		for it := range «RANGE(subsRange1(xs))» {
+			its = append(its, it)
+		}
+	case 2:
+		for it := range «RANGE(subsInt(3))» {
+			its = append(its, it)
+		}
+	case 3:
+		for it := range «RANGE(subsString("aé" + string(rune('a'+((n%%5)+5)%%5))))» {
+			its = append(its, it)
+		}
+	default:
+		for bx := range «RANGE(subsBodyVar(3))» {
+			its = append(its, bx.it)
+		}
+	}
+	return its
+}
+
+// every sub-iterator exists before the first one is advanced; then a drawn interleaving
+func UseSubsCollected(a, b int) int {
+	its := collectSubs(a, b)
+	done := make([]bool, len(its))
+	left, s := len(its), 0
+	for step := 0; left > 0 && step < 200; step++ {
+		h := ((b*7 + step*step + a) %% len(its) + len(its)) %% len(its)
+		for done[h] {
+			h = (h + 1) %% len(its)
+		}
+		if its[h].MoveNext() {
+			vrt.E(%[1]d, h, its[h].Current())
+			s = s*3 + its[h].Current()
+		} else {
+			done[h] = true
+			left--
+		}
+	}
+	return vrt.V(%[2]d, s)
+}
+
+// the outer generator is advanced between two steps of an earlier sub-iterator
+func UseSubsLazy(a, b int) int {
+	outer := subsRange2([]int{a, b, a + b})
+	var its []«Iter[int]»
+	s := 0
+	for outer.MoveNext() {
+		its = append(its, outer.Current())
+		for _, it := range its {
+			if it.MoveNext() {
+				vrt.E(%[3]d, it.Current())
+				s = s*3 + it.Current()
+			}
+		}
+	}
+	for _, it := range its {
+		for v := range «RANGE(it)» {
+			s = s*3 + v
+		}
+	}
+	return vrt.V(%[4]d, s)
+}
+`, tag(), tag(), tag(), tag())
+	src = []string{common, genSrc, users}
+	ref = []string{common, genRef, users}
+	small := []int{-1, 0, 1, 2, 3, 4, 5}
+	funcs = []*Func{
+		{Name: "UseSubsCollected", Params: []string{"a", "b"}, Args: [][]int{small, small}, Feat: []string{"sub_iterators_of_one_generator_collected_then_interleaved"}},
+		{Name: "UseSubsLazy", Params: []string{"a", "b"}, Args: [][]int{small, small}, Feat: []string{"outer_generator_advanced_between_steps_of_its_sub_iterators"}},
+	}
+	return
+}
+
 // optTemplates: declarations aimed at the optimiser's side conditions (C07) and at file-wide
 // passes over bystander code (C13): closures of the eta-reducible shape whose callee is a
 // reassigned function variable, a method value on a reassigned receiver, a builtin, a
